@@ -99,7 +99,7 @@ func executesBeforeInIteration(first, second ssa.Instruction, header *ssa.BasicB
 
 // C03: a simple paragraph is kept or dropped as a whole.
 func C03(p *core.Program, r *core.Report) {
-	r.Explanation = "I1 (iterator invalidation): every loop that walks siblings by re-reading cursor.NextSibling/PrevSibling is located in the analysed program; using the effect summaries (callbacks included context-insensitively) no call that executes before the advancing load in an iteration may write that link field of an object of the cursor's region - otherwise the walk silently skips the rest of the paragraph (the defect repaired in WalkNodes). I2 (inline tags stay inside the block): from the extracted tables, each of a,b,code,em,font,i,span,strong,u has display `inline`, inline display neither flushes nor labels, the converter's tag switch drops none of them unconditionally, font is renamed to an inline tag, and the builder's flush flag is only raised by SkipNode/StartNode. I3: TextBlock.ApplyToModel marks every Text element of a content block on every iteration path."
+	r.Explanation = "I1 (iterator invalidation): every loop that walks siblings by re-reading cursor.NextSibling/PrevSibling is located in the analysed program; using the effect summaries (callbacks included context-insensitively) no call that executes before the advancing load in an iteration may write that link field of an object of the cursor's region - otherwise the walk silently skips the rest of the paragraph (the defect repaired in WalkNodes). I2 (inline tags stay inside the block): from the extracted tables, each of a,b,code,em,font,i,span,strong,u has display `inline`, inline display neither flushes nor labels, the converter's tag switch drops none of them unconditionally, font is renamed to an inline tag, and the builder's flush flag is only raised by SkipNode/StartNode. I3: TextBlock.ApplyToModel marks every Text element of a content block on every iteration path. I4: on every decision path of the element visitor for an inline tag that does not descend into the element, the reason is a decision on an attribute of the element (class, id, rel, role, itemprop, special href) or its visibility - or it is the javascript: anchor rewrite, which applies only to an anchor whose single child is a text node and hands that node to the builder. I5: StartNode pushes GetActionForElement of the very element it is given. I6: the output post-processors (absolutisers, StripAttributes) write no structural field of html.Node (effect summaries, callees included)."
 	r.NotCovered = "the classifier's decision which blocks are content; visibility of inline elements (C04); the three documented conditional drops inside paragraphs (mediawiki edit links/sections)."
 
 	a := runPEA(p)
@@ -235,6 +235,102 @@ func C03(p *core.Program, r *core.Report) {
 			if t != "a" && t != "font" && t != "span" {
 				r.Add("I2", "converter treats <"+t+"> like any element without a special case", tbl.Pos, cl.Sig == ref.Sig, "behaviour compared with that for an unknown tag name")
 			}
+		}
+	}
+	// ---- I4: an inline element is only left out (the walk does not descend and nothing of it is
+	// handed to the builder) for a reason that lies in its attributes or its visibility - a plain
+	// <b>, <span>, <a href=..> never is. The javascript: anchor rewrite must hand over the whole
+	// content: it applies only to an anchor with exactly one child, a text node, which is added.
+	if tbl := converterSwitch(p, r, "I4"); tbl != nil {
+		reAttr := regexp.MustCompile(`dom\.(ClassName|ID)\(\$1\)|dom\.GetAttribute\(\$1,"[^"]*"\)|dom\.HasAttribute\(\$1,`)
+		jsTest := `strings.HasPrefix(dom.GetAttribute($1,"href"),"javascript:")`
+		for _, t := range simpleInlineTags {
+			n, bad := 0, 0
+			var wit []string
+			for _, pa := range tbl.PathsFor(t) {
+				if pathResult(pa) != "return false" {
+					continue
+				}
+				n++
+				explained := false
+				for _, l := range pa.Lits {
+					switch {
+					case l.Atom == "domutil.IsProbablyVisible($1)" && !l.Val:
+						explained = true
+					case l.Atom == jsTest:
+						// the javascript: href itself is no reason to drop anything
+					case l.Val && reAttr.MatchString(l.Atom):
+						explained = true // a decision taken on an attribute of the element (class, id, rel, role, itemprop, special hrefs)
+					}
+				}
+				if !explained && litOf(pa, jsTest) == 1 {
+					// the rewrite: the only child is a text node and it is handed to the builder
+					added := false
+					for _, ev := range builderCalls(pa) {
+						if ev == "AddTextNode(dom.ChildNodes($1)[0])" {
+							added = true
+						}
+					}
+					explained = added && litOf(pa, "len(dom.ChildNodes($1)) == 1") == 1 && litOf(pa, "dom.ChildNodes($1)[0].Type == html.TextNode") == 1
+				}
+				if !explained {
+					bad++
+					if len(wit) < 2 {
+						wit = append(wit, pa.String())
+					}
+				}
+			}
+			r.Add("I4", "inline <"+t+"> is skipped only for its attributes/visibility, or rewritten with its whole content", tbl.Pos, bad == 0 && n > 0,
+				fmt.Sprintf("%d paths do not descend into the element, %d of them without such a reason", n, bad), wit...)
+		}
+	}
+	// ---- I5: the builder acts on the action of the very element it is given (no stale or shared
+	// action: whether an inline element flushes depends on its own style attribute)
+	if sn := mustInl(p, r, "I5", "(*"+webdocPkg+".WebDocumentBuilder).StartNode"); sn != nil {
+		c := core.NewCanon(p)
+		n, bad := 0, ""
+		for _, call := range core.Calls(sn, func(ci ssa.CallInstruction) bool {
+			b, ok := ci.Common().Value.(*ssa.Builtin)
+			return ok && b.Name() == "append"
+		}) {
+			if !strings.HasSuffix(c.Of(call.Common().Args[0]), ".‹[]webdoc.ElementAction›") {
+				continue
+			}
+			el := appendedElem(call.(*ssa.Call))
+			if el == nil {
+				continue
+			}
+			n++
+			if !allPhiLeaves(el, func(v ssa.Value) bool {
+				return c.Of(v) == "webdoc.GetActionForElement($1)"
+			}, map[ssa.Value]bool{}) {
+				bad = c.Of(el)
+			}
+		}
+		r.Add("I5", "StartNode pushes GetActionForElement of the element it is given", p.Pos(sn.Pos()), n == 1 && bad == "", fmt.Sprintf("%d pushes onto the action stack; other source: %s", n, bad))
+	}
+	// ---- I6: what post-processes a clone for output rewrites attribute values only; it never
+	// re-links, renames or removes nodes (effect summaries: no write to a structural field of
+	// html.Node by the absolutisers or StripAttributes, callees included)
+	{
+		a := runPEA(p)
+		structural := []string{"Parent", "FirstChild", "LastChild", "PrevSibling", "NextSibling", "Type", "DataAtom", "Data", "Namespace"}
+		for _, key := range []string{absLinksKey, absSrcKey, absSrcSetKey, stripKey} {
+			fn := mustFunc(p, r, "I6", key)
+			if fn == nil {
+				continue
+			}
+			var hits []string
+			// the tree handed in is the first parameter; callees included (closed summaries)
+			for f, e := range a.ParamMods(fn, 0, true) {
+				for _, sf := range structural {
+					if f == "Node."+sf {
+						hits = append(hits, f+" ("+strings.Join(a.Chain(e), " > ")+")")
+					}
+				}
+			}
+			sort.Strings(hits)
+			r.Add("I6", core.ShortKey(fn)+" leaves the structure of the tree alone", p.Pos(fn.Pos()), len(hits) == 0 && a.Analysed(fn), strings.Join(hits, "; "))
 		}
 	}
 	// who raises the flush flag
